@@ -80,6 +80,8 @@ func c03Case(entries []swEntry, context string) *Case {
 			c.Body = []Stmt{&If{Conds: []*Expr{LeafFlag(atoms.New(ClsIdent, "flag", ""))}, Bodies: [][]Stmt{{&Break{}}}}, newCmd()}
 		case "labelcmd":
 			c.Body = []Stmt{&Label{Name: atoms.New(ClsUserName, "lbl", "names")}, newCmd()}
+		case "iflabelcmd":
+			c.Body = []Stmt{&If{Conds: []*Expr{LeafFlag(atoms.New(ClsIdent, "flag", ""))}, Bodies: [][]Stmt{{newCmd()}}}, &Label{Name: atoms.New(ClsUserName, "lbl", "names")}, newCmd()}
 		}
 		sw.Cases = append(sw.Cases, c)
 	}
